@@ -129,7 +129,9 @@ def w_explicit(ctx, rng, idx):
     hs = steps(rng)
     thr = [0.0, 1e-14][int(rng.integers(0, 2))]
     ctx.describe({'op': 'explicit_euler', 'dims': dims, 'markov': markov, 'complex': cplx, 'steps': hs, 'normalize': nz, 'threshold': thr})
-    ok, sol = call('ode.explicit_euler', ode.explicit_euler, A, x0, hs, prop=P, threshold=thr, max_rank=10 ** 6, normalize=nz, progress=False)
+    # (a rank bound is either far away or tight: the largest rank any tensor with these mode sizes can have - representable, so no cut)
+    mrk = 10 ** 6 if rng.random() < 0.65 else max(gen.max_ranks(dims, [1] * len(dims)))
+    ok, sol = call('ode.explicit_euler', ode.explicit_euler, A, x0, hs, prop=P, threshold=thr, max_rank=mrk, normalize=nz, progress=False)
     if ok:
         call('ode.errors_expl_euler', ode.errors_expl_euler, A, sol, hs, prop=P)
     if rng.random() < 0.5:  # the same operator / initial objects again, other step sizes (anything remembered between calls shows here)
@@ -199,7 +201,8 @@ def w_hod(ctx, rng, idx):
                     tmp = tmp.dot(A).dot(A)
                     op = op + 2 / math.factorial(2 * k - 1) * h ** (2 * k - 1) * tmp
             kw['op_hod'] = op
-    call('ode.hod', ode.hod, A, x0, h, N, prop=P, order=order, threshold=[0.0, 1e-14][int(rng.integers(0, 2))], max_rank=10 ** 6, normalize=nz, progress=False, **kw)
+    mrk = 10 ** 6 if rng.random() < 0.65 else max(gen.max_ranks(dims, [1] * len(dims)))
+    call('ode.hod', ode.hod, A, x0, h, N, prop=P, order=order, threshold=[0.0, 1e-14][int(rng.integers(0, 2))], max_rank=mrk, normalize=nz, progress=False, **kw)
     # the same operator object (and step size) again with one setting changed: another order, another step size, or the operator
     # rescaled in place by its owner between the calls
     for _ in range(int(rng.integers(0, 3))):
